@@ -11,7 +11,7 @@
  'clauses': 'copy constructor, for every capacity N >= 1 and every SV(other): the new vector has other.size() <= N elements, element k equals other[k] for '
             'every k, every slot from size on is RAW (nothing constructed there), each element is copy-constructed exactly once over RAW storage from a LIVE '
             'source; other (size, every slot) is unchanged; nothing outside the exact-size storage is written',
- 'witness': {'unwind': 5},
+ 'witness': {'unwind': 5}, 'fallback': 'ghost-free',
  'assumptions': ['SV(other) on entry, instantiated at the ghost slot and at the slot the loop reads', 'the object under construction starts with storage in which no element is alive',
                  'T = ELEM, N = CAP arbitrary in [1, 2^36]'],
 } @*/
